@@ -239,7 +239,7 @@ class Signal(np.lib.mixins.NDArrayOperatorsMixin):
     def sample_rate(self, sample_rate):
         try:
             temp = sample_rate.to(u.Hz)
-            assert temp.isscalar and temp > 0
+            assert temp.isscalar and not np.iscomplexobj(temp.value) and temp > 0
         except Exception:
             raise ValueError(
                 "Invalid sample_rate. Must be a positive scalar "
@@ -535,7 +535,7 @@ class RadioSignal(Signal):
     def chan_bw(self, chan_bw):
         try:
             temp = chan_bw.to(u.Hz)
-            assert temp.isscalar and temp > 0
+            assert temp.isscalar and not np.iscomplexobj(temp.value) and temp > 0
         except Exception:
             raise ValueError(
                 "Invalid chan_bw. Must be a positive scalar "
